@@ -272,6 +272,10 @@ func convShapes(tr *hx.Trace, r *hx.Rng) {
 		before := snapshot(pub.s)
 		outcome, kind := call(func() error { x25519.EdPublicKeyToX25519(pub.s); return nil })
 		emit("EdPublicKeyToX25519", outcome, kind, before == snapshot(pub.s))
+		pk := mkbuf(r, 64, ed25519.NewKeyFromSeed(r.Bytes(32)))
+		before = snapshot(pk.s)
+		outcome, kind = call(func() error { x25519.EdPrivateKeyToX25519(pk.s); return nil })
+		emit("EdPublicKeyToX25519", outcome, kind, before == snapshot(pk.s))
 		var in, out [32]byte
 		copy(in[:], r.Bytes(32))
 		keep := in
@@ -376,13 +380,20 @@ func batchShapes(tr *hx.Trace, r *hx.Rng, thorough bool) {
 
 // meterReader delivers at most avail bytes, chunk bytes per Read, then fails with err (or EOF).
 type meterReader struct {
-	data      []byte
-	chunk     int
-	delivered int
-	failWith  error
+	data        []byte
+	chunk       int
+	delivered   int
+	failWith    error
+	errWithData bool // deliver the final piece together with the error / EOF in the same call
+	zeroOnce    bool // the first call returns (0, nil)
+	calls       int
 }
 
 func (m *meterReader) Read(p []byte) (int, error) {
+	m.calls++
+	if m.zeroOnce && m.calls == 1 {
+		return 0, nil
+	}
 	if m.delivered >= len(m.data) {
 		if m.failWith != nil {
 			return 0, m.failWith
@@ -398,6 +409,12 @@ func (m *meterReader) Read(p []byte) (int, error) {
 	}
 	copy(p, m.data[m.delivered:m.delivered+n])
 	m.delivered += n
+	if m.errWithData && m.delivered >= len(m.data) {
+		if m.failWith != nil {
+			return n, m.failWith
+		}
+		return n, io.EOF
+	}
 	return n, nil
 }
 
@@ -414,7 +431,7 @@ func keyObjects(tr *hx.Trace, r *hx.Rng, thorough bool) {
 		}{{32, 0, nil}, {64, 0, nil}, {33, 0, nil}, {40, 1, nil}, {32, 1, nil}, {32, 31, nil}, {31, 0, nil}, {0, 0, nil}, {1, 0, nil}, {16, 3, nil},
 			{31, 0, errors.New("verif: broken reader")}, {5, 1, errors.New("verif: broken reader")}, {100, 7, errors.New("verif: never reached")}} {
 			data := r.Bytes(rd.avail)
-			m := &meterReader{data: data, chunk: rd.chunk, failWith: rd.fail}
+			m := &meterReader{data: data, chunk: rd.chunk, failWith: rd.fail, errWithData: rep%3 == 1, zeroOnce: rep%3 == 2}
 			var pub ed25519.PublicKey
 			var priv ed25519.PrivateKey
 			var err error
@@ -480,6 +497,10 @@ func keyObjects(tr *hx.Trace, r *hx.Rng, thorough bool) {
 		for i := range s1 {
 			s1[i] ^= 0xa5
 		}
+		// appending to the returned slices must not reach the key either (spare capacity aliasing)
+		p2 := append(k.Public().(ed25519.PublicKey), 0xEE, 0xEE)
+		s2 := append(k.Seed(), 0xEE, 0xEE)
+		_, _ = p2, s2
 		fresh := bytes.Equal(k, orig) && bytes.Equal(k.Public().(ed25519.PublicKey), orig[32:]) && bytes.Equal(k.Seed(), orig[:32]) && cap(p1) >= 32
 		tr.Emit(map[string]interface{}{"op": "access", "publicOk": publicOk, "seedOk": seedOk, "roundTrip": roundTrip, "fresh": fresh, "cfg": *fCfg})
 
@@ -511,5 +532,17 @@ func keyObjects(tr *hx.Trace, r *hx.Rng, thorough bool) {
 		eq(false, pk, orig[32:], pk.Equal(k), "pub vs priv")
 		eq(false, k, orig, k.Equal(pk), "priv vs pub")
 		eq(false, k, orig, k.Equal(nil), "priv vs nil")
+		eq(false, k, orig, k.Equal(&k), "priv vs *PrivateKey")
+		eq(false, pk, orig[32:], pk.Equal(&pk), "pub vs *PublicKey")
+		eq(true, k, []byte{}, k.Equal(ed25519.PrivateKey(nil)), "priv vs empty PrivateKey")
+		eq(true, pk, []byte{}, pk.Equal(ed25519.PublicKey{}), "pub vs empty PublicKey")
+		eq(true, ed25519.PublicKey{}, []byte{}, ed25519.PublicKey(nil).Equal(ed25519.PublicKey{}), "empty pub vs empty pub")
+		for _, kk := range []int{1, 8, 16, 31, 32, 33, 48, 63} { // equal in the first kk bytes only
+			o := append([]byte{}, orig...)
+			for i := kk; i < 64; i++ {
+				o[i] ^= 0xff
+			}
+			eq(true, k, o, k.Equal(ed25519.PrivateKey(o)), "priv equal prefix only")
+		}
 	}
 }
